@@ -43,7 +43,6 @@ func init() {
 	}
 }
 
-
 func c15IsFraming(mv int) bool { return mv <= mvBigCtl }
 
 func runC15(c *Ctx, variant int) {
